@@ -49,7 +49,7 @@ def run(tier, seed, t0):
         what="a legal request gets a reply the parser reports as a protocol error or loses an item of",
         corr_streams=[("valid", 800, 20000)],
         assumptions=["the reference server is the harness's RFC-derived printer (genresp.rs), not a real IMAP server",
-                     "proved (c16_reply_parses) for ENVELOPE, MODSEQ, RFC822, RFC822.SIZE, RFC822.TEXT, UID, X-GM-MSGID and their combinations; BODY, FLAGS, INTERNALDATE, X-GM-LABELS by reflection on the dispatch (c16_every_requestable_item_is_dispatched) and by the oracle"])
+                     "proved (c16_reply_parses) for ENVELOPE, FLAGS, INTERNALDATE, MODSEQ, RFC822, RFC822.SIZE, RFC822.TEXT, UID, X-GM-MSGID and their combinations; BODY, X-GM-LABELS by reflection on the dispatch (c16_every_requestable_item_is_dispatched) and by the oracle"])
 
 
 evidence_on_violation = rtlib.on_violation(PROP, PROPFILE)
